@@ -21,7 +21,7 @@ import (
 
 func init() {
 	register(&Rule{
-		ID: "RE-6", Props: []string{"C17"}, Min: 4,
+		ID: "RE-6", Props: []string{"C17"}, Min: 3,
 		Doc: `decoders on the input path keep "truncated" apart from "end of data": for every third-party reader constructed (NewReader) in pkg/obiformats on a stream that is read as input,
 no Read / WriteTo method of the decoder package returns the bare error of an io.ReadFull / io.ReadAtLeast on its source: io.EOF there means that a fixed-size section (the gzip trailer
 with the checksum) is missing entirely, and unmapped (compress/gzip maps it with noEOF) it reaches the caller as a clean end of data.`,
